@@ -1038,8 +1038,9 @@ def _record_field(l: ast.AST) -> bool:
     return isinstance(l, ast.Subscript) and isinstance(l.slice, ast.Constant) and isinstance(l.slice.value, str)
 
 
-def _record_list(f: Func, name: str) -> bool:
-    """`name` is a local list that only ever receives record indices (x.token, x.end, one of those minus a constant)."""
+def _record_list(f: Func, name: str, only: tuple[str, ...] | None = None) -> bool:
+    """`name` is a local list that only ever receives record indices (x.token, x.end, one of those minus a constant); with `only`:
+    fields of these names."""
     n_app = 0
     for n in own_nodes(f.node):
         if isinstance(n, ast.Assign) and any(isinstance(t, ast.Name) and t.id == name for t in n.targets):
@@ -1056,6 +1057,10 @@ def _record_list(f: Func, name: str) -> bool:
                     v = v.left
                 if not _record_field(v):
                     return False
+                if only is not None:
+                    fld = v.attr if isinstance(v, ast.Attribute) else v.slice.value          # type: ignore[attr-defined]
+                    if fld not in only:
+                        return False
                 n_app += 1
             elif n.func.attr not in ("pop", "reverse", "clear", "sort"):
                 return False
@@ -1152,9 +1157,6 @@ def _record_index(f: Func, sub: ast.Subscript, bounds: "Bounds") -> bool:
 
 # reviewed, keyed by function and alpha-normalised subscript
 TOK_EXEMPT = {
-    ("_postProcess", "state.tokens[L_expr_]"):
-        "strikethrough: j starts at i + 1 for a recorded lone-marker index i, is advanced only while j < len(state.tokens) and then "
-        "stepped back by one, so i <= j <= len - 1 when the two tokens are swapped",
     ("processDelimiters", "P1[L_expr_]"):
         "openerIdx starts strictly below the closer's index (headerIdx - jump - 1 with headerIdx <= closerIdx < len) and only "
         "decreases; the loop condition keeps it above minOpenerIdx >= -1",
@@ -1226,10 +1228,25 @@ def rule_tokbnd(c: Ctx) -> RuleResult:
             acc = e1 if acc is None else acc.join(e1)
         return acc if acc is not None and acc.d else None
 
+    def popped_bounds(f: Func):
+        """`i = marks.pop()` for a local list that only ever receives token indices taken from records (x.token - k, item["token"]):
+        the data invariant of the records (RECORD_REASON) as an upper bound of the popped value, against every token list the
+        function subscripts - what lets `j = i + 1; while j < len(tokens) and ...: j += 1; j -= 1; tokens[j]` be decided by the facts."""
+        sc = c.tf.scope(f)
+        tok_lists = sorted({U(n.value) for n in own_nodes(f.node) if isinstance(n, ast.Subscript) and sc.type(n.value) == ("list", "Token")
+                            and isinstance(n.value, (ast.Name, ast.Attribute))})
+
+        def rb(call: ast.Call, z: Facts):
+            if isinstance(call.func, ast.Attribute) and call.func.attr == "pop" and not call.args and isinstance(call.func.value, ast.Name) \
+                    and _record_list(f, call.func.value.id, only=("token",)):
+                for t_ in tok_lists:
+                    yield (f"len({t_})", -1)
+        return rb if tok_lists else None
+
     def facts_of(f: Func, depth: int = 0):
         if f not in fcache:
             cfg_ = c.cfg(f)
-            fcache[f] = (cfg_, analyse(cfg_, entry_of(f, depth), contract_call_kills(c, f), c.bool_summary))
+            fcache[f] = (cfg_, analyse(cfg_, entry_of(f, depth), contract_call_kills(c, f), c.bool_summary, None, popped_bounds(f)))
         return fcache[f]
 
     # validate the contract where render rules are dispatched
